@@ -392,7 +392,13 @@ OpDone(s) ==
   ELSE IF op = "register" THEN
     LET a == c.a  m == MapOf(a)
         s1 == adj(SPop(s))
-        s2 == IF s1.hasmap[a] THEN s1
+        \* the map was missing at the call: Cc::new(map) ran (with its automatic collection, already done);
+        \* if a nested register created the map meanwhile, the new empty one is dropped again at once
+        s2 == IF s1.hasmap[a] THEN
+                (IF c.fresh
+                 THEN Emit(Emit(s1, [e |-> "alloc", k |-> "box", o |-> m + 50, blk |-> m + 50, size |-> MAPSZ, align |-> 8]),
+                           [e |-> "dealloc", blk |-> m + 50, size |-> MAPSZ, align |-> 8, live |-> TRUE])
+                 ELSE s1)
               ELSE Emit([s1 EXCEPT !.box[m] = "live", !.rc[m] = 1, !.tc[m] = 0, !.mark[m] = "N", !.fz[m] = FIN /\ s1.fing, !.hm[m] = FALSE, !.dr[m] = FALSE,
                                    !.hasmap[a] = TRUE, !.bytes = @ + MAPSZ],
                         [e |-> "alloc", k |-> "box", o |-> m, blk |-> m, size |-> MAPSZ, align |-> 8])
@@ -626,7 +632,7 @@ EnvRegister(s, a, t, ft) ==
       s0 == IF t # 0 THEN [s EXCEPT !.roots[t] = @ - 1] ELSE s
       s1 == Emit([s0 EXCEPT !.nact = c, !.ft = IF s.stack = <<>> /\ trig THEN ft ELSE @],
                  CallEvPol(s, [op |-> "register", a |-> a, c |-> c, t |-> t]))
-      s2 == SPush(s1, [Frame("op", 0, "pre") EXCEPT !.x = [op |-> "register", a |-> a, c |-> c, t |-> t, adj |-> trig]])
+      s2 == SPush(s1, [Frame("op", 0, "pre") EXCEPT !.x = [op |-> "register", a |-> a, c |-> c, t |-> t, adj |-> trig, fresh |-> ~s.hasmap[a]]])
   IN IF trig THEN StartCollect(s2) ELSE s2
 
 SlotOfAct(s, a, c) == LET S == {j \in DOMAIN s.slots[a] : s.slots[a][j].c = c} IN IF S = {} THEN 0 ELSE CHOOSE j \in S : TRUE
